@@ -274,6 +274,21 @@ func getEnv() (*env, error) {
 		w = w2
 	}
 	e.work = w
+	// private copies of the tools: another run.py of this property may rebuild
+	// (remove + re-link) the shared binaries while this process is still running
+	for _, b := range []*string{&e.drv, &e.crashrun} {
+		data, err := os.ReadFile(*b)
+		if err != nil {
+			envErr = err
+			return nil, err
+		}
+		p := filepath.Join(w, "bin-"+filepath.Base(*b))
+		if err := os.WriteFile(p, data, 0o755); err != nil {
+			envErr = err
+			return nil, err
+		}
+		*b = p
+	}
 	e.src = filepath.Join(w, "source")
 	if err := writeSourceLayout(e.src); err != nil {
 		envErr = err
@@ -1009,6 +1024,7 @@ func judgeRerun(ref *refRun, d int, C, R *State, res *drvResult, victim []DrvOp,
 	var vs []*evid.Violation
 	add := func(sig, f string, a ...any) { vs = append(vs, evid.V(sig, f, a...)) }
 	Sm := ref.S[len(ref.S)-1]
+	unlisted := map[string]bool{} // referrers left out of their subject's list by the repeated copy (see below)
 	if !res.Ended {
 		add("rerun-driver-died", "re-running victim ops %d.. on the crashed directory: the client process died\n%s\n%s", d, tail(res.Raw, 400), res.Stderr)
 		return vs
@@ -1041,6 +1057,11 @@ func judgeRerun(ref *refRun, d int, C, R *State, res *drvResult, victim []DrvOp,
 			ws := map[string]bool{}
 			for _, w := range want {
 				ws[w] = true
+				if !hs[w] && C.Files[w] {
+					// the mechanism of this finding: the referrer's manifest file was already
+					// there when the operation was repeated, so the copy skipped its ManifestPut
+					unlisted[w] = true
+				}
 				if !hs[w] {
 					add("rerun-referrer-not-listed", "after repeating the interrupted operation(s) the referrers list %q (exists: %v) does not list %s, which the uninterrupted run lists; manifest file of that referrer present: %v",
 						t, ok, short(w), R.Files[w])
@@ -1089,8 +1110,32 @@ func judgeRerun(ref *refRun, d int, C, R *State, res *drvResult, victim []DrvOp,
 			add("rerun-untagged-entry-lost", "after repeating the interrupted operation(s) the index entry for %s (no tag) is missing", short(dg))
 		}
 	}
+	// Narrow attribution: a referrer that the repeated copy left unlisted (manifest present in
+	// the crashed state, entry absent from its subject's list after the re-run) is unreachable
+	// from index.json, so a Close later in the repeated suffix garbage-collects it together with
+	// whatever only it refers to. That is a consequence of rerun-referrer-not-listed in THIS
+	// execution, not a separate behaviour.
+	viaUnlisted := map[string]bool{}
+	for _, w := range sortedKeys(unlisted) {
+		Sm.Reach(w, viaUnlisted)
+	}
+	closeInSuffix := false
+	for i := d; i < len(victim); i++ {
+		closeInSuffix = closeInSuffix || victim[i].Op == "close"
+	}
+	var reachR map[string]bool
 	for _, dg := range sortedKeys(Sm.Files) {
 		if explicit[dg] && Sm.Files[dg] && !R.Files[dg] {
+			if _, present := R.Files[dg]; !present && closeInSuffix && viaUnlisted[dg] {
+				if reachR == nil {
+					reachR = R.ReachIndex()
+				}
+				if !reachR[dg] {
+					add("rerun-referrer-not-listed", "consequence in the same execution: blobs/%s (present in the uninterrupted run) belongs to the unlisted referrer(s) %v, is not reachable from index.json after the re-run, and was garbage-collected by the Close of the repeated suffix",
+						strings.Replace(dg, ":", "/", 1), sortedKeys(unlisted))
+					continue
+				}
+			}
 			add("rerun-file-missing", "after repeating the interrupted operation(s) blobs/%s is missing or wrong (present in the uninterrupted run)", strings.Replace(dg, ":", "/", 1))
 		}
 	}
